@@ -74,8 +74,8 @@ Section Ext.
     destruct s as [|c r]; [reflexivity|].
     rewrite !rewrite_f_step. rewrite !IH.
     destruct (Ascii.eqb c ch_open); [|reflexivity].
-    destruct (match_bracket r) as [g rest| |]; try reflexivity.
-    rewrite resolve_group_ext, IH. reflexivity.
+    destruct (match_bracket r) as [g rest|rest|]; try reflexivity; rewrite !IH; try reflexivity.
+    rewrite resolve_group_ext. reflexivity.
   Qed.
 
   Theorem rewrite_ext s : rewrite has1 loc1 s = rewrite has2 loc2 s.
